@@ -190,14 +190,16 @@ def decode(buf: BinaryStr, offset: int = 0) -> (list[memoryview], int):
         raise IndexError('buffer overflow')
 
     ret = []
-    while length > 0:
+    end = offset + length
+    while offset < end:
         st = offset
         _, size_typ_comp = parse_tl_num(buf, offset)
         offset += size_typ_comp
         len_comp, size_len_comp = parse_tl_num(buf, offset)
         offset += size_len_comp + len_comp
+        if offset > end:
+            raise IndexError('name component exceeds the size of the Name')
         ret.append(buf[st:offset])
-        length -= (offset - st)
 
     return ret, offset - origin_offset
 
